@@ -129,13 +129,19 @@ ImplAddMatches(a, n) == n \in Addend => ImplAdd(a, n) = [ok |-> Add(a, n)]
 (*                                                                          *)
 (* A time is a natural number; its serial is its value modulo 2^BITS, its   *)
 (* era the quotient.  Place(ref, ts) is the unique time t with              *)
-(* t = ts (mod 2^BITS) and |t - ref| < 2^(BITS-1); at distance exactly      *)
-(* 2^(BITS-1) RFC 1982 leaves the direction undefined (PlaceDefined is      *)
-(* false), and a time before 0 (the epoch) is not representable.            *)
+(* t = ts (mod 2^BITS) and |t - ref| < 2^(BITS-1).  At distance exactly      *)
+(* 2^(BITS-1) RFC 1982 leaves the order undefined (PlaceDefined is false):  *)
+(* ref - 2^(BITS-1) and ref + 2^(BITS-1) are the same serial.  There the    *)
+(* documentation of Timestamp::to_system_time decides: "the time difference *)
+(* between the SystemTime value and the reference time fits in an i32",     *)
+(* i.e. lies in -2^(BITS-1) .. 2^(BITS-1) - 1, so the tie is placed BEFORE  *)
+(* the reference, at ref - 2^(BITS-1) (SignedDiff yields -H for d = H).     *)
+(* A time before 0 (the epoch) is not representable; there (a reference in  *)
+(* era 0 and the placed time below it) only t = ts (mod 2^BITS) is claimed. *)
 SignedDiff(r, ts) == LET d == (ts - r) % M IN IF d < H THEN d ELSE d - M
 PlaceDefined(ref, ts) == (ts - ref) % M # H
 Place(ref, ts) == ref + SignedDiff(ref % M, ts)
-PlaceConstrained(ref, ts) == PlaceDefined(ref, ts) /\ Place(ref, ts) >= 0
+PlaceConstrained(ref, ts) == Place(ref, ts) >= 0
 
 (* Transcription of `Timestamp::to_system_time(self, reference)` in         *)
 (* src/rdata/dnssec.rs (k = era of the reference, rmod = its serial):       *)
@@ -158,6 +164,18 @@ LawPlaceNear(ref, ts) ==
      /\ Place(ref, ts) % M = ts
      /\ Place(ref, ts) - ref \in -(H - 1) .. (H - 1)
 \* placing agrees with comparing against the reference's own serial
+\* the documented contract, ties included: same serial, difference in the
+\* range of a signed BITS-bit integer, and no other time meets both
+LawPlaceDoc(ref, ts) ==
+  /\ Place(ref, ts) % M = ts
+  /\ Place(ref, ts) - ref \in -H .. (H - 1)
+  /\ \A t \in (ref - M) .. (ref + M) :
+        (t % M = ts /\ t - ref \in -H .. (H - 1)) => t = Place(ref, ts)
+\* the tie: both candidates are the same serial, the earlier one is taken
+LawPlaceTie(ref, ts) ==
+  ~PlaceDefined(ref, ts) =>
+     /\ (ref + H) % M = ts /\ (ref - H) % M = ts
+     /\ Place(ref, ts) = ref - H
 LawPlaceVsRef(ref, ts) ==
   PlaceDefined(ref, ts) =>
      /\ (Place(ref, ts) > ref <=> Cmp(ref % M, ts) = "LT")
@@ -173,9 +191,8 @@ LawPlaceOrder(ref, x, y) ==
         /\ (Place(ref, x) = Place(ref, y) <=> Cmp(x, y) = "EQ")
 \* shifting reference and serial by the same amount shifts the placed time
 LawPlaceShift(ref, ts, n) ==
-  PlaceDefined(ref, ts) =>
-     /\ PlaceDefined(ref + n, Add(ts, n))
-     /\ Place(ref + n, Add(ts, n)) = Place(ref, ts) + n
+  /\ PlaceDefined(ref + n, Add(ts, n)) <=> PlaceDefined(ref, ts)
+  /\ Place(ref + n, Add(ts, n)) = Place(ref, ts) + n      \* ties included
 \* the library's branch structure computes Place wherever it is constrained,
 \* and always returns a time that carries the serial
 ImplPlaceMatches(ref, ts) ==
